@@ -191,7 +191,8 @@ InitObs ==
     park |-> 0, woken |-> {},
     eosSaid |-> FALSE,
     probes |-> <<>>,      \* <<lo, up, delivered-at>>
-    tail |-> -1,          \* non-terminal polls still allowed once the writer is gone (-1: n/a)
+    tail |-> -1,          \* non-terminal polls still allowed once the writer is gone: at most one per
+                          \* queued byte (-1: n/a)
     bad |-> {} ]
 
 Deliverable(snap) == snap.st = "err" \/ (snap.st = "ok" /\ (Len(snap.ready) > 0 \/ snap.wd))
@@ -294,7 +295,7 @@ ObserveStep(os, e) ==
                     THEN os.del + e.snap.rb ELSE os.flushed,
         !.tail = IF os.term # "none" \/ ~os.calive \/ isCDrop THEN -1
                  ELSE IF isPoll /\ os.tail > 0 THEN os.tail - 1
-                 ELSE IF e.t = "P" /\ gone2 /\ e.pfin /\ os.tail = -1 THEN Len(e.snap.ready)
+                 ELSE IF e.t = "P" /\ gone2 /\ e.pfin /\ os.tail = -1 THEN e.snap.rb   \* every data frame has >= 1 byte
                  ELSE os.tail,
         !.bad = os.bad \cup df.bad \cup sf]
 
